@@ -118,6 +118,8 @@ def run(ctx, only_cases=None):
         cases += [{"mode": "stress", "n": 2500 if thorough else 600}]
         cases += [{"mode": "hybrid2", "n": 2, "kind": k} for k in (0, 1)]
         cases += [{"mode": "uniqwrap", "n": k} for k in (0, 1, 3)]
+        cases += [{"mode": "mgr2", "n": 2, "kind": k} for k in (0, 1, 2, 3)]
+        cases += [{"mode": "noderel", "n": 3, "kind": k} for k in (0, 1)]
         # the boundary "no free id": the range is full (or has 1-2 free slots); allocate / real Release() sequences on 1-3 allocators
         for free in ([], [1000], [1], [500, 1000], [ctx.rng.randrange(1, 1001)]):
             cases += [{"mode": "nodefull", "n": 2, "pre": free, "sched": list(s)} for s in itertools.product(range(4), repeat=4)][:: (1 if thorough else 9)]
@@ -137,7 +139,7 @@ def run(ctx, only_cases=None):
         if not o["prop_ok"]:
             nfail += 1
             if nfail <= 3:
-                kind = {"node": "node-id-duplicate", "nodeseq": "node-id-duplicate-after-lease-lapse", "nodefault": "node-id-duplicate-on-shared-cache-fault", "nodefull": "node-range-full-not-clean", "wrap": "handed-out-id-not-the-marked-id", "stress": "concurrent-callers-one-generator", "hybrid2": "two-nodes-shared-cache-duplicate", "uniqwrap": "taken-candidate-handed-out", "birthday": "duplicate-live-id-real-collision",
+                kind = {"node": "node-id-duplicate", "nodeseq": "node-id-duplicate-after-lease-lapse", "nodefault": "node-id-duplicate-on-shared-cache-fault", "nodefull": "node-range-full-not-clean", "wrap": "handed-out-id-not-the-marked-id", "stress": "concurrent-callers-one-generator", "hybrid2": "two-nodes-shared-cache-duplicate", "uniqwrap": "taken-candidate-handed-out", "mgr2": "two-managers-one-store-duplicate", "noderel": "released-slot-deleted-again", "birthday": "duplicate-live-id-real-collision",
                         "fallback": "fallback-duplicate", "hybridnx": "hybrid-setnx-fallback-duplicate", "nodehb": "node-lease-not-renewed", "uuid": "uuid-duplicate-under-entropy-fault", "ttl": "marker-lifetime"}.get(
                     c["mode"], "leak" if "marker" in o["prop_msg"] else "duplicate-live-id")
                 ctx.violation(kind, "real idgen/node allocator: " + o["prop_msg"], {"case": c, "observed": o})
